@@ -1,0 +1,259 @@
+//go:build verif
+
+// Contracts for the govc verifier (comment-only; see /verif/DESIGN.md).
+// This file contains no code. It is read as text by /verif/bin/govc.
+
+package lowleveljpeg
+
+//@ default mode int
+
+// ---- facts about the constant tables, proved by evaluating their initialisers ----
+
+//@ lemma hufflen
+//@   prop C18
+//@   expand
+//@   ensures forall(i, 0, 4, forall(j, 0, 256, huffmanBitWriters[i][j] >> 16 <= 16))
+
+//@ lemma bitcount
+//@   prop C18
+//@   expand
+//@   ensures forall(i, 0, 256, bitCount[i] <= 8 && implies(i < 8, bitCount[i] <= 3))
+
+//@ lemma zigzagrange
+//@   prop C18
+//@   expand
+//@   ensures forall(i, 0, 64, zigzag[i] < 64)
+
+// div is "round to nearest, ties away from zero".
+//@ func div
+//@   prop C18
+//@   mode bv
+//@   pure
+//@   requires b > 0 && b <= 255 && -1024 <= a && a <= 1023
+//@   ensures -1024 <= result && result <= 1023
+//@   ensures implies(a >= 0, math(2)*math(result)*math(b) - math(b) <= math(2)*math(a) && math(2)*math(a) < math(2)*math(result)*math(b) + math(b))
+//@   ensures implies(a < 0, math(2)*math(result)*math(b) - math(b) < math(2)*math(a) && math(2)*math(a) <= math(2)*math(result)*math(b) + math(b))
+//@   ensures implies(a == 0, result == 0)
+
+// emitBits appends the low n bits of v to the bit stream. Budget: every 8 bits
+// cost at most 2 output bytes (a 0xFF byte is followed by a stuffed 0x00).
+//@ func (*Encoder).emitBits
+//@   prop C18
+//@   mode bv
+//@   requires e.bitsN < 8 && n <= 24 && 0 <= bufIndex && math(4)*math(bufIndex) + math(e.bitsN) + math(n) <= 4*2924
+//@   ensures e.bitsN < 8 && bufIndex <= result
+//@   ensures[budget] math(4)*math(result) + math(e.bitsN) <= math(4)*math(bufIndex) + math(old(e.bitsN)) + math(n)
+//@   modifies e.bitsV, e.bitsN, mem(e.buf)
+//@   loop 1 invariant n <= 31 && bufIndex_1 >= 0 && math(4)*math(bufIndex_1) + math(n) <= math(4)*math(old(bufIndex)) + math(old(e.bitsN)) + math(old(n)) && old(bufIndex) <= bufIndex_1
+//@   loop 1 invariant unchanged(e.bitsN) && math(4)*math(old(bufIndex)) + math(old(e.bitsN)) + math(old(n)) <= 4*2924
+//@   loop 1 decreases n
+
+//@ spec room(e *Encoder, bufIndex int, bits int) bool = 0 <= bufIndex && 4*bufIndex + int(e.bitsN) + bits <= 4*2924
+
+//@ func (*Encoder).emitHuffman
+//@   prop C18
+//@   uses hufflen
+//@   requires e.bitsN < 8 && 0 <= whichHuffman && whichHuffman < 4 && room(e, bufIndex, 16)
+//@   ensures e.bitsN < 8 && bufIndex <= result
+//@   ensures[budget] 4*result + int(e.bitsN) <= 4*bufIndex + int(old(e.bitsN)) + 16
+//@   modifies e.bitsV, e.bitsN, mem(e.buf)
+
+// emitHuffmanRun: T.81 F.1.2: the symbol is (run << 4) | category with
+// category = bit length of |value|; then `category` extra bits.
+//@ func (*Encoder).emitHuffmanRun
+//@   prop C18
+//@   uses hufflen bitcount
+//@   requires e.bitsN < 8 && 0 <= whichHuffman && whichHuffman < 4 && zeroesRunLength <= 15 && -2047 <= value && value <= 2047 && room(e, bufIndex, 27)
+//@   ensures e.bitsN < 8 && bufIndex <= result
+//@   ensures[budget] 4*result + int(e.bitsN) <= 4*bufIndex + int(old(e.bitsN)) + 27
+//@   modifies e.bitsV, e.bitsN, mem(e.buf)
+//@   assert@call emitHuffman#1 [symbol] int(arg_value) / 16 == int(zeroesRunLength) && int(arg_value) % 16 <= 11
+//@   assert@call emitBits#1 [extrabits] arg_n <= 11
+
+//@ spec quantsOK(e *Encoder) bool = forall(i, 0, 2, forall(j, 0, 64, e.quants[i][j] != 0))
+//@ spec dcOK(e *Encoder) bool = forall(i, 0, 3, -1024 <= e.prevDC[i] && e.prevDC[i] <= 1023)
+//@ spec blockOK(b *BlockI16) bool = b != nil && -1024 <= b[0] && b[0] <= 1023 && forall(i, 1, 64, -1023 <= b[i] && b[i] <= 1023)
+
+// encodeBlock: at most 27 bits per coefficient (16-bit code + 11 extra bits),
+// a run of 16 zeroes costs one 16-bit 0xF0 code, the end-of-block code 16 bits:
+// never more than 27*64 bits, i.e. 4*(bytes written) + pending <= pending0 + 1728.
+//@ func (*Encoder).encodeBlock
+//@   prop C18
+//@   uses zigzagrange
+//@   requires e.bitsN < 8 && whichComponent <= 2 && blockOK(b) && quantsOK(e) && dcOK(e) && room(e, bufIndex, 1728) && !sameobj(b, e.prevDC)
+//@   ensures e.bitsN < 8 && bufIndex <= result && dcOK(e) && quantsOK(e)
+//@   ensures[budget] 4*result + int(e.bitsN) <= 4*bufIndex + int(old(e.bitsN)) + 1728
+//@   modifies e.bitsV, e.bitsN, mem(e.buf), mem(e.prevDC)
+//@   loop 1 invariant 1 <= z && z <= 64 && zeroesRunLength < uint32(z) && e.bitsN < 8 && old(bufIndex) <= bufIndex_1 && quantsOK(e) && dcOK(e) && unchanged(mem(b))
+//@   loop 1 invariant 4*bufIndex_1 + int(e.bitsN) <= 4*old(bufIndex) + int(old(e.bitsN)) + 27*(z - int(zeroesRunLength))
+//@   loop 1 invariant 0 <= whichHuffmanBase && whichHuffmanBase <= 2
+//@   loop 1 decreases 64 - z
+//@   loop 2 invariant 1 <= z && z < 64 && zeroesRunLength < uint32(z) && e.bitsN < 8 && old(bufIndex) <= bufIndex_1 && quantsOK(e) && dcOK(e) && unchanged(mem(b)) && ac != 0 && -1023 <= ac && ac <= 1023
+//@   loop 2 invariant 4*bufIndex_1 + int(e.bitsN) <= 4*old(bufIndex) + int(old(e.bitsN)) + 27*(z - int(zeroesRunLength))
+//@   loop 2 invariant 0 <= whichHuffmanBase && whichHuffmanBase <= 2
+//@   loop 2 decreases zeroesRunLength
+
+//@ spec qfOK(q *QuantizationFactors) bool = q != nil && forall(j, 0, 64, q[j] != 0)
+
+//@ func (*QuantizationFactors).IsValid
+//@   prop C18
+//@   nilable_receiver
+//@   pure
+//@   ensures implies(result, qfOK(b))
+//@   ensures implies(qfOK(b), result)
+//@   loop 1 invariant rangeindex >= -1 && rangeindex <= 64 && forall(j, 0, rangeindex + 1, b[j] != 0)
+//@   loop 1 decreases 64 - rangeindex
+
+//@ func (*BlockI16).IsValid
+//@   prop C18
+//@   nilable_receiver
+//@   pure
+//@   ensures implies(result, blockOK(b))
+//@   ensures implies(blockOK(b), result)
+//@   loop 1 invariant rangeindex >= -1 && rangeindex <= 63 && forall(j, 1, rangeindex + 2, -1023 <= b[j] && b[j] <= 1023) && -1024 <= b[0] && b[0] <= 1023
+//@   loop 1 decreases 63 - rangeindex
+
+//@ func (*QuantizationFactors).SetToStandardValues
+//@   prop C18
+//@   nilable_receiver
+//@   ensures implies(b != nil, qfOK(b))
+//@   modifies mem(b)
+//@   loop 1 invariant rangeindex >= -1 && rangeindex <= 64 && 0 <= q && q <= 5000 && forall(j, 0, rangeindex + 1, b[j] != 0)
+//@   loop 1 decreases 64 - rangeindex
+
+//@ func (*Array2QuantizationFactors).SetToStandardValues
+//@   prop C18
+//@   nilable_receiver
+//@   ensures implies(b != nil, forall(i, 0, 2, forall(j, 0, 64, b[i][j] != 0)))
+//@   modifies mem(b[0]), mem(b[1])
+
+//@ spec encOK(e *Encoder) bool = e.bitsN < 8 && quantsOK(e) && dcOK(e)
+//@ spec validCT(c ColorType) bool = c == ColorTypeGray || c == ColorTypeYCbCr444 || c == ColorTypeYCbCr420
+// Object invariant: an Encoder that is usable (no sticky error, a colour type
+// that only a successful Reset can have set) has valid tables and state.
+//@ spec jpegInv(e *Encoder) bool = implies(!e.hasReturnedError && validCT(e.colorType), encOK(e))
+
+// ---- headers ----
+
+//@ func (*Encoder).encodeDQT
+//@   prop C18
+//@   uses zigzagrange
+//@   requires 0 <= bufIndex && bufIndex <= 16
+//@   ensures result == bufIndex + ite(e.colorType == ColorTypeGray, 69, 134)
+//@   ensures e.buf[bufIndex] == 0xFF && e.buf[bufIndex+1] == 0xDB && e.buf[bufIndex+2] == 0 && int(e.buf[bufIndex+3]) == ite(e.colorType == ColorTypeGray, 67, 132)
+//@   ensures[zigzag0] e.buf[bufIndex+4] == 0 && forall(z, 0, 64, e.buf[bufIndex+5+z] == e.quants[0][int(zigzag[z])])
+//@   ensures[zigzag1] implies(e.colorType != ColorTypeGray, e.buf[bufIndex+69] == 1 && forall(z, 0, 64, e.buf[bufIndex+70+z] == e.quants[1][int(zigzag[z])]))
+//@   ensures forall(k, 0, bufIndex, e.buf[k] == old(e.buf[k]))
+//@   modifies mem(e.buf)
+//@   loop 1 invariant -1 <= rangeindex && rangeindex <= 1 && bufIndex_1 == old(bufIndex) + 4 + 65*(rangeindex + 1) && unchanged(e.colorType) && unchanged(mem(e.quants[0])) && unchanged(mem(e.quants[1]))
+//@   loop 1 invariant implies(rangeindex >= 0, e.colorType != ColorTypeGray)
+//@   loop 1 invariant forall(k, 0, old(bufIndex) + 4, e.buf[k] == atentry(1, e.buf[k]))
+//@   loop 1 invariant implies(rangeindex >= 0, e.buf[old(bufIndex)+4] == 0 && forall(z, 0, 64, e.buf[old(bufIndex)+5+z] == e.quants[0][int(zigzag[z])]))
+//@   loop 1 invariant implies(rangeindex >= 1, e.buf[old(bufIndex)+69] == 1 && forall(z, 0, 64, e.buf[old(bufIndex)+70+z] == e.quants[1][int(zigzag[z])]))
+//@   loop 1 decreases 2 - rangeindex
+//@   loop 2 invariant 0 <= z && z <= 64 && 0 <= i && i <= 1 && i == rangeindex && bufIndex_1 == old(bufIndex) + 5 + 65*i && unchanged(e.colorType) && unchanged(mem(e.quants[0])) && unchanged(mem(e.quants[1])) && sameobj(q, e.quants[i])
+//@   loop 2 invariant forall(k, 0, bufIndex_1, e.buf[k] == atentry(2, e.buf[k]))
+//@   loop 2 invariant forall(y, 0, z, e.buf[bufIndex_1+y] == e.quants[i][int(zigzag[y])])
+//@   loop 2 decreases 64 - z
+
+//@ func (*Encoder).encodeSOF0
+//@   prop C18
+//@   requires 0 <= bufIndex && bufIndex <= 200 && 0 < width && width <= 0xFFFF && 0 < height && height <= 0xFFFF
+//@   ensures result == bufIndex + ite(e.colorType == ColorTypeGray, 13, 19)
+//@   ensures[marker] e.buf[bufIndex] == 0xFF && e.buf[bufIndex+1] == 0xC0 && e.buf[bufIndex+2] == 0 && int(e.buf[bufIndex+3]) == ite(e.colorType == ColorTypeGray, 11, 17) && e.buf[bufIndex+4] == 8
+//@   ensures[dimensions] int(e.buf[bufIndex+5])*256 + int(e.buf[bufIndex+6]) == height && int(e.buf[bufIndex+7])*256 + int(e.buf[bufIndex+8]) == width
+//@   ensures[components] int(e.buf[bufIndex+9]) == ite(e.colorType == ColorTypeGray, 1, 3) && e.buf[bufIndex+10] == 1 && int(e.buf[bufIndex+11]) == ite(e.colorType == ColorTypeYCbCr420, 0x22, 0x11) && e.buf[bufIndex+12] == 0
+//@   ensures[chroma] implies(e.colorType != ColorTypeGray, e.buf[bufIndex+13] == 2 && e.buf[bufIndex+14] == 0x11 && e.buf[bufIndex+15] == 1 && e.buf[bufIndex+16] == 3 && e.buf[bufIndex+17] == 0x11 && e.buf[bufIndex+18] == 1)
+//@   ensures forall(k, 0, bufIndex, e.buf[k] == old(e.buf[k]))
+//@   modifies mem(e.buf)
+
+//@ func (*Encoder).encodeDHT
+//@   prop C18
+//@   requires 0 <= bufIndex && bufIndex <= 400
+//@   ensures result == bufIndex + ite(e.colorType == ColorTypeGray, 212, 424)
+//@   ensures forall(k, 0, bufIndex, e.buf[k] == old(e.buf[k]))
+//@   modifies mem(e.buf)
+
+//@ func (*Encoder).encodeSOSHeader
+//@   prop C18
+//@   requires 0 <= bufIndex && bufIndex <= 1000
+//@   ensures result == bufIndex + ite(e.colorType == ColorTypeGray, 10, 14)
+//@   ensures e.buf[bufIndex] == 0xFF && e.buf[bufIndex+1] == 0xDA
+//@   ensures forall(k, 0, bufIndex, e.buf[k] == old(e.buf[k]))
+//@   modifies mem(e.buf)
+
+// ---- the per-MCU calls ----
+
+// addN: up to 6 blocks of at most 1728 bits each, 7 padding bits and the
+// 2-byte EOI marker fit in the fixed 2924-byte buffer: (7 + 6*1728 + 7)/4 + 2*1 + 2 <= 2924.
+//@ func (*Encoder).addN
+//@   prop C18
+//@   requires w != nil && encOK(e) && (len(blocks) == 1 || len(blocks) == 3 || len(blocks) == 6)
+//@   ensures[sticky] implies(result != nil, e.hasReturnedError)
+//@   ensures[ok] implies(result == nil, encOK(e) && unchanged(e.hasReturnedError) && old(e.numAddsRemaining) > 0 && e.numAddsRemaining == old(e.numAddsRemaining) - 1)
+//@   ensures[toomany] implies(old(e.numAddsRemaining) == 0, result != nil)
+//@   ensures[invalidblock] implies(exists(k, 0, len(blocks), !blockOK(blocks[k])), result == ErrInvalidBlockI16)
+//@   ensures unchanged(e.colorType)
+//@   modifies e.hasReturnedError, e.numAddsRemaining, e.bitsV, e.bitsN, mem(e.buf), mem(e.prevDC)
+//@   loop 1 invariant -1 <= rangeindex_1 && rangeindex_1 <= len(blocks) && forall(k, 0, rangeindex_1 + 1, blockOK(blocks[k])) && unchanged(e.hasReturnedError) && unchanged(e.numAddsRemaining) && unchanged(e.bitsN) && unchanged(mem(e.prevDC)) && unchanged(mem(e.quants[0])) && unchanged(mem(e.quants[1]))
+//@   loop 1 decreases len(blocks) - rangeindex_1
+//@   loop 2 invariant -1 <= rangeindex_2 && rangeindex_2 < len(blocks) && encOK(e) && 0 <= bufIndex && 4*bufIndex + int(e.bitsN) <= 7 + 1728*(rangeindex_2 + 1)
+//@   loop 2 invariant forall(k, 0, len(blocks), blockOK(blocks[k])) && unchanged(e.hasReturnedError) && e.numAddsRemaining == old(e.numAddsRemaining) - 1 && old(e.numAddsRemaining) > 0
+//@   loop 2 invariant len(whichComponents) == len(blocks) && forall(k, 0, len(blocks), whichComponents[k] <= 2)
+//@   loop 2 decreases len(blocks) - rangeindex_2
+
+//@ func (*Encoder).Add1
+//@   prop C18
+//@   nilable_receiver
+//@   requires w != nil && implies(e != nil, jpegInv(e))
+//@   ensures[nil] implies(e == nil, result == ErrNilReceiver)
+//@   ensures[sticky] implies(e != nil && old(e.hasReturnedError), result == ErrPreviouslyReturnedError && e.hasReturnedError)
+//@   ensures[flag] implies(e != nil && result != nil, e.hasReturnedError)
+//@   ensures[wrongtype] implies(e != nil && !old(e.hasReturnedError) && e.colorType != ColorTypeGray, result == ErrBadAddNForColorType)
+//@   ensures[inv] implies(e != nil, jpegInv(e) && unchanged(e.colorType))
+//@   ensures[count] implies(e != nil && result == nil, old(e.numAddsRemaining) > 0 && e.numAddsRemaining == old(e.numAddsRemaining) - 1)
+//@   modifies e.hasReturnedError, e.numAddsRemaining, e.bitsV, e.bitsN, mem(e.buf), mem(e.prevDC)
+
+//@ func (*Encoder).Add3
+//@   prop C18
+//@   nilable_receiver
+//@   requires w != nil && implies(e != nil, jpegInv(e))
+//@   ensures[nil] implies(e == nil, result == ErrNilReceiver)
+//@   ensures[sticky] implies(e != nil && old(e.hasReturnedError), result == ErrPreviouslyReturnedError && e.hasReturnedError)
+//@   ensures[flag] implies(e != nil && result != nil, e.hasReturnedError)
+//@   ensures[wrongtype] implies(e != nil && !old(e.hasReturnedError) && e.colorType != ColorTypeYCbCr444, result == ErrBadAddNForColorType)
+//@   ensures[inv] implies(e != nil, jpegInv(e) && unchanged(e.colorType))
+//@   ensures[count] implies(e != nil && result == nil, old(e.numAddsRemaining) > 0 && e.numAddsRemaining == old(e.numAddsRemaining) - 1)
+//@   modifies e.hasReturnedError, e.numAddsRemaining, e.bitsV, e.bitsN, mem(e.buf), mem(e.prevDC)
+
+//@ func (*Encoder).Add6
+//@   prop C18
+//@   nilable_receiver
+//@   requires w != nil && implies(e != nil, jpegInv(e))
+//@   ensures[nil] implies(e == nil, result == ErrNilReceiver)
+//@   ensures[sticky] implies(e != nil && old(e.hasReturnedError), result == ErrPreviouslyReturnedError && e.hasReturnedError)
+//@   ensures[flag] implies(e != nil && result != nil, e.hasReturnedError)
+//@   ensures[wrongtype] implies(e != nil && !old(e.hasReturnedError) && e.colorType != ColorTypeYCbCr420, result == ErrBadAddNForColorType)
+//@   ensures[inv] implies(e != nil, jpegInv(e) && unchanged(e.colorType))
+//@   ensures[count] implies(e != nil && result == nil, old(e.numAddsRemaining) > 0 && e.numAddsRemaining == old(e.numAddsRemaining) - 1)
+//@   modifies e.hasReturnedError, e.numAddsRemaining, e.bitsV, e.bitsN, mem(e.buf), mem(e.prevDC)
+
+// Reset: validates its arguments, installs the quantisation tables, zeroes the
+// DC predictors and the bit accumulator, computes the number of MCUs and
+// writes SOI, DQT, SOF0, DHT and the SOS header.
+//@ spec ceilDiv(a int, b int) int = (a + b - 1) / b
+
+//@ func (*Encoder).Reset
+//@   prop C18
+//@   nilable_receiver
+//@   requires w != nil
+//@   ensures[nil] implies(e == nil, result == ErrNilReceiver)
+//@   ensures[badarg] implies(e != nil && (width <= 0 || 0xFFFF < width || height <= 0 || 0xFFFF < height || !validCT(colorType)), result == ErrBadArgument && e.hasReturnedError)
+//@   ensures[flag] implies(e != nil, (result != nil) == e.hasReturnedError)
+//@   ensures[state] implies(e != nil && result == nil, e.colorType == colorType && validCT(colorType) && encOK(e) && e.bitsN == 0 && e.prevDC[0] == 0 && e.prevDC[1] == 0 && e.prevDC[2] == 0)
+//@   ensures[count] implies(e != nil && result == nil, int(e.numAddsRemaining) == ite(colorType == ColorTypeYCbCr420, ceilDiv(width, 16) * ceilDiv(height, 16), ceilDiv(width, 8) * ceilDiv(height, 8)))
+//@   ensures[inv] implies(e != nil, jpegInv(e))
+//@   modifies e.hasReturnedError, e.colorType, e.numAddsRemaining, e.bitsV, e.bitsN, mem(e.buf), mem(e.prevDC), mem(e.quants[0]), mem(e.quants[1])
+//@   assert@call Write#1 [soi] e.buf[0] == 0xFF && e.buf[1] == 0xD8 && e.buf[2] == 0xFF && e.buf[3] == 0xDB
+//@   assert@call Write#1 [length] len(arg_p) == ite(colorType == ColorTypeGray, 2 + 69 + 13 + 212 + 10, 2 + 134 + 19 + 424 + 14)
+//@   assert@call Write#1 [sof0] e.buf[ite(colorType == ColorTypeGray, 71, 136)] == 0xFF && e.buf[ite(colorType == ColorTypeGray, 72, 137)] == 0xC0 && int(e.buf[ite(colorType == ColorTypeGray, 76, 141)])*256 + int(e.buf[ite(colorType == ColorTypeGray, 77, 142)]) == height && int(e.buf[ite(colorType == ColorTypeGray, 78, 143)])*256 + int(e.buf[ite(colorType == ColorTypeGray, 79, 144)]) == width
